@@ -203,12 +203,13 @@ func roundsTo(s string, y float64, bits int) bool {
 
 var boolTrue = []string{"1", "t", "T", "TRUE", "true", "True"}
 var boolFalse = []string{"0", "f", "F", "FALSE", "false", "False"}
-var boolBad = []string{"yes", "tRUE", "2", "", "no", "on", " true", "truee", "y", "n", "off", "enabled", "TRUE ", "-1", "0.0", "null", "nil"}
+var boolBad = []string{"yes", "tRUE", "2", "", "no", "on", " true", "truee", "y", "n", "off", "enabled", "TRUE ", "-1", "0.0", "null", "nil", "true\n", "false\r\n", "\ntrue", "t\n", "1\n", "true\x00"}
 
 // not integers - though some other parser of the standard library (durations, floats, dates, quantities) would read them
 var intBad = []string{"abc", "1.5", "", "1e3", "0x", "1__0", " 1", "1 ", "--1", "0b2", "0o8", "١", "80s", "1m", "5s", "1h15m", "-0.5h", "100ms", "1ns", "2h", "1k", "1K", "1Ki", "10%", "1,000", "1.", ".5", "1e0", "0x1p4",
-	"１２", "2006-01-02", "12:30", "1d", "1w", "0x1.8p1", "1_", "_1", "+-1", "1L", "1u", "0n", "NaN", "Inf", "true", "null"}
-var floatBad = []string{"abc", "", "1e", "1.5.2", " 1.5", "1,5", "--1", "1.5s", "1m", "1h", "50%", "1.5f", "1.5d", "1/2", "½", "1e1e1", "0x", "1_.5", "１.５", "1.5 ", "$1.5", "1.5k", "null", "true", "infinit", "nano"}
+	"１２", "2006-01-02", "12:30", "1d", "1w", "0x1.8p1", "1_", "_1", "+-1", "1L", "1u", "0n", "NaN", "Inf", "true", "null",
+	"1\n", "1\r\n", "\n1", "1\t", "0x1F\n", "1\x00", "1\u00a0", "1;"}
+var floatBad = []string{"abc", "", "1e", "1.5.2", " 1.5", "1,5", "--1", "1.5s", "1m", "1h", "50%", "1.5f", "1.5d", "1/2", "½", "1e1e1", "0x", "1_.5", "１.５", "1.5 ", "$1.5", "1.5k", "null", "true", "infinit", "nano", "1.5\n", "1.5\r\n", "\n1.5", "1e3\n", "Inf\n", "1.5\x00"}
 
 func bigOf(n *uni.Node) *big.Int {
 	if n.T.K.IsSigned() {
